@@ -2299,7 +2299,7 @@ class Affine:
                 right_linear = (other * np.ones(self.shape)).linear
 
                 new_linear = add_linear(left_linear, right_linear)
-        elif isinstance(other, np.ndarray):
+        elif isinstance(other, np.ndarray) or sp.issparse(other):
             other = check_numeric(other)
             new_const = other + self.const
 
